@@ -5,7 +5,7 @@ import ast
 
 from .. import cfg as C
 from ..amatch import AM
-from ..flow import expand
+from ..flow import expand, explicit_keywords
 from ..report import AnalysisError
 from ..srcmodel import Cls, norm
 from ..state import StateAnalysis, attr_reads, own_exprs, self_attr
@@ -102,9 +102,40 @@ def rule_a(ctx):
                         break
                     cur = par
                 ctor_calls.append((t, cond, c))
-    ctx.need(ctor_calls, "imread_from_npz: no Image(array, **metadata) construction found")
+    folded = {}
+
+    def fold_reader(written):
+        """Symbolic fold of the reader for a file whose metadata dict has exactly the keys `written`: (class name, array passed
+        unmodified, metadata passed unmodified) or None when the reader leaves the folding language."""
+        from ..fold import Folder, Obj, Opaque, Raised, Refuse, Sym
+
+        key = tuple(sorted(written))
+        if key in folded:
+            return folded[key]
+        md = {k: Opaque("meta", k) for k in written}
+        orig = dict(md)
+        arr = Opaque("arr", "ARRAY")
+        fo = Folder(symbolic=True)
+        fo.func_stack.append(rd.node)
+        fo.overrides = {"np.load": lambda a, k: {"array": arr, "metadata": Obj("packed", {"item": lambda a2, k2: md})}}
+        try:
+            r = fo.call(rd.node, [Opaque("path", "p")], {})
+            res = (r.fn.split(".")[-1], r.args == (arr,), set(r.kw) == set(orig) and all(r.kw[k] is orig[k] for k in orig), repr(r)[:200]) if isinstance(r, Sym) else None
+        except (Refuse, Raised):
+            res = None
+        folded[key] = res
+        return res
+
+    if fold_reader(metadata_keys(m, m.cls(IMG, "Image"))) is None:
+        ctx.need(ctor_calls, "imread_from_npz: no Image(array, **metadata) construction found")
 
     def reader_class(written):
+        sem = fold_reader(written)
+        if sem is not None:
+            for mod in m.modules.values():
+                if sem[0] in mod.classes and mod.name.startswith("darsia.image"):
+                    return mod.classes[sem[0]]
+            return None
         default = None
         for t, cond, c in ctor_calls:
             if cond is None:
@@ -145,7 +176,8 @@ def rule_a(ctx):
     ctx.floor(R, 3)
     sv = m.func(IMG, "Image.save")
     calls = [c for c in ast.walk(sv.node) if isinstance(c, ast.Call) and norm(c.func) == "np.savez"]
-    ok = len(calls) == 1 and {k.arg: norm(k.value) for k in calls[0].keywords} == {"array": "self.img", "metadata": "self.metadata()"}
+    kws = explicit_keywords(sv.node, calls[0]) if len(calls) == 1 else None
+    ok = kws is not None and {k: norm(v) for k, v in kws} == {"array": "self.img", "metadata": "self.metadata()"}
     ctx.ob(R, sv.qname, "save writes array=self.img, metadata=self.metadata()", ok, str([norm(c) for c in calls])[:160], sv.node)
     am = AM(rd)
     ok = (am.has(rd.node, f"npzdata = np.load({rd.params[0]}, allow_pickle=True)") is not None and am.has(rd.node, "array = npzdata['array']") is not None
@@ -174,8 +206,14 @@ def rule_a(ctx):
                 touched.append(norm(x)[:70])
     ctor = [c for c in ast.walk(rd.node) if isinstance(c, ast.Call) and norm(c.func) in ("darsia.OpticalImage", "darsia.Image", "darsia.ScalarImage")]
     pass_ok = len(ctor) >= 1 and all([norm(a) for a in c.args] == [AN] and [(k.arg, norm(k.value)) for k in c.keywords] == [(None, MN)] for c in ctor)
-    ctx.ob(R, rd.qname, "the array and the metadata dict read from the file reach the constructor unmodified", pass_ok and not touched,
-           f"modified on the way: {touched}" if touched else str([norm(c)[:60] for c in ctor]), rd.node, evidence=bool(touched))
+    sems = [fold_reader(metadata_keys(m, w)) for w in writers]
+    if all(s is not None for s in sems):
+        bad = [s[3] for s in sems if not (s[1] and s[2])]
+        ctx.ob(R, rd.qname, "the array and the metadata dict read from the file reach the constructor unmodified", not bad and not touched,
+               f"modified on the way: {touched}" if touched else f"the constructor receives {bad}", rd.node, evidence=True)
+    else:
+        ctx.ob(R, rd.qname, "the array and the metadata dict read from the file reach the constructor unmodified", pass_ok and not touched,
+               f"modified on the way: {touched}" if touched else str([norm(c)[:60] for c in ctor]), rd.node, evidence=bool(touched))
     im = m.func(IMR, "imread")
     am2 = AM(im)
     route = [n for n in ast.walk(im.node) if isinstance(n, ast.If) and am2.eq(n.test, "suffix == '.npz'")]
@@ -259,6 +297,10 @@ def rule_b(ctx):
     ctx.instance(R + ".writes", n_write)
     ctx.floor(R + ".writes", 2)
     fb = m.func(IMR, "imread_from_bytes")
+    sem = _bytes_cases(fb)
+    if sem is not None:
+        ctx.ob(R, fb.qname, "3 channels -> OpticalImage; rank 2 -> ScalarImage; single channel -> ScalarImage(squeezed); else raise", not sem, "; ".join(sem), fb.node, evidence=True)
+        return
     am = AM(fb)
     arms = []
     for s in fb.node.body:
@@ -280,6 +322,52 @@ def rule_b(ctx):
             rets = [r for x in body for r in ast.walk(x) if isinstance(r, ast.Return)]
             ok = ok and len(rets) == 1 and isinstance(rets[0].value, ast.Call) and norm(rets[0].value.func) == wc and any(k.arg == "img" and am.eq(k.value, wi) for k in rets[0].value.keywords)
     ctx.ob(R, fb.qname, "3 channels -> OpticalImage; rank 2 -> ScalarImage; single channel -> ScalarImage(squeezed); else raise", ok, str(am.show()), fb.node)
+
+
+def _bytes_cases(fb):
+    """Fold imread_from_bytes once per shape of the decoded array (the decoder is replaced by an object carrying only that shape):
+    list of disagreements with the documented mapping, or None when the function leaves the folding language."""
+    from ..fold import Folder, Obj, Opaque, Raised, Refuse, Sym
+
+    def data_of(r):
+        if not isinstance(r, Sym):
+            return None, None
+        img = r.kw.get("img") if getattr(r, "kw", None) else None
+        if img is None and r.args:
+            img = r.args[0]
+        return r.fn.split(".")[-1], img
+    bad = []
+    for shape, want in (((5, 7), "scalar"), ((5, 7, 3), "optical"), ((5, 7, 1), "squeezed"), ((5, 7, 4), "raise"), ((5, 7, 2), "raise"), ((5,), "raise"), ((5, 7, 3, 2), "raise")):
+        dec = Obj("decoded", {"shape": shape, "ndim": len(shape)})
+        fo = Folder(symbolic=True)
+        fo.func_stack.append(fb.node)
+        fo.overrides = {"cv2.imdecode": lambda a, k, dec=dec: dec}
+        try:
+            r = fo.call(fb.node, [Opaque("bytes", "data")], {})
+        except Raised:
+            if want != "raise":
+                bad.append(f"decoded shape {shape}: raises instead of building an image")
+            continue
+        except Refuse:
+            return None
+        kind, img = data_of(r)
+        if kind is None:
+            return None
+        if want == "raise":
+            bad.append(f"decoded shape {shape}: returns {kind} instead of raising")
+        elif want == "scalar":
+            if not (kind == "ScalarImage" and img is dec):
+                bad.append(f"decoded shape {shape}: returns {kind}(img={img!r}), not ScalarImage of the decoded array")
+        elif want == "optical":
+            conv = isinstance(img, Sym) and img.fn == "cv2.cvtColor" and len(img.args) == 2 and img.args[0] is dec and getattr(img.args[1], "label", "") == "cv2.COLOR_BGR2RGB"
+            if not (kind == "OpticalImage" and conv):
+                bad.append(f"decoded shape {shape}: returns {kind}(img={img!r}), not OpticalImage of the BGR->RGB converted array")
+        else:
+            sq = isinstance(img, Sym) and (img.fn in ("decoded[Ellipsis, 0]", "decoded[:, :, 0]", "decoded[:, :, -1]", "decoded[Ellipsis, -1]")
+                                           or (img.fn == "np.squeeze" and img.args and img.args[0] is dec))
+            if not (kind == "ScalarImage" and sq):
+                bad.append(f"decoded shape {shape}: returns {kind}(img={img!r}), not ScalarImage of the array without its channel axis")
+    return bad
 
 
 def savable(m, notes=None):
